@@ -193,8 +193,13 @@ def rule_part(run):
               'matrix loop iterates %s: a fraction is skipped or the fracture fraction is reused' % norm(il.iter), where=fi.where(il))
     mk = [c for c in ast.walk(il) if isinstance(c, ast.Call) and isinstance(c.func, ast.Name) and c.func.id == 't2block']
     if len(mk) == 1 and len(mk[0].args) >= 2:
-        check_formula(run, 't2grid.minc :: matrix block volume = V * f[m]', fi, None, 'original_vol * %s' % vf,
-                      'matrix block volume is not the original volume times its fraction', node=mk[0].args[1])
+        if 'blk.volume' in norm(mk[0].args[1]):
+            run.violated('t2grid.minc :: matrix block volume = V * f[m]', 'the matrix block volume `%s` uses blk.volume, which has '
+                         'already been scaled by the fracture fraction: continua volumes no longer add up to the original volume'
+                         % norm(mk[0].args[1]), where=fi.where(mk[0]))
+        else:
+            check_formula(run, 't2grid.minc :: matrix block volume = V * f[m]', fi, None, 'original_vol * %s' % vf,
+                          'matrix block volume is not the original volume times its fraction', node=mk[0].args[1])
         kw = dict((k.arg, k.value) for k in mk[0].keywords)
         if 'centre' in kw:
             check_formula(run, 't2grid.minc :: matrix block keeps the block centre', fi, None, 'blk.centre',
